@@ -47,6 +47,7 @@ type scenario struct {
 	// of a cancelled / timeout kind: the runner must still report the timeout kind
 	StopErr bool
 	Parent string        // live | pre | at:<offset>
+	Cause  bool          // the parent context is ended with a recorded cause (context.WithCancelCause)
 	POff   time.Duration
 	// parallelise
 	Outcomes []bool // per argument: true = error
@@ -243,6 +244,10 @@ func (w *world) checkRunner(sc scenario) {
 
 var errInterrupted = errors.New("interrupted before completion")
 
+// errParentCause is the cause recorded when a parent context of the "/cause" scenarios is cancelled: an application
+// error of no common kind (ctx.Err() is still context.Canceled).
+var errParentCause = errors.New("node is being drained")
+
 func kind(err error) string {
 	switch {
 	case err == nil:
@@ -268,6 +273,11 @@ func sameErr(a, b error) bool {
 
 func bodyCtx(x *gosim.Exec, w *world, sc scenario) {
 	parent, cancelParent := context.WithCancel(x.Ctx())
+	if sc.Cause {
+		var cancelCause context.CancelCauseFunc
+		parent, cancelCause = context.WithCancelCause(x.Ctx())
+		cancelParent = func() { cancelCause(errParentCause) }
+	}
 	if sc.Parent == "pre" {
 		cancelParent()
 	}
@@ -537,6 +547,14 @@ func scenarios() []scenario {
 		if (sc.Action == "own" || sc.Action == "linger") && !sc.ResErr && (sc.Parent == "" || sc.Parent == "live") {
 			sc.Name += "/interrupted-on-stop"
 			sc.StopErr = true
+			out = append(out, sc)
+		}
+	}
+	// the parent ended with a recorded cause: what the runner reports is still of the cancelled / timeout kind
+	for _, sc := range append([]scenario(nil), out...) {
+		if sc.Parent != "" && sc.Parent != "live" && sc.Action != "deaf" && !sc.StopErr {
+			sc.Name += "/cause"
+			sc.Cause = true
 			out = append(out, sc)
 		}
 	}
